@@ -20,7 +20,8 @@ EXTENDS Naturals, Integers, Sequences, FiniteSets, TLC, Json, IOUtils
 Bins == {"array", "b64url", "b64url-pad", "b64", "b64-pad"}
 Timeouts == {"absent", "number", "string", "float"}
 Algs == {"number", "string", "float"}
-Enums == {"none", "attestation", "userVerification", "attachment", "residentKey", "transport", "hint", "credType", "algValue", "attFormat"}
+Enums == {"none", "attestation", "userVerification", "attachment", "residentKey", "transport", "hint", "credType", "algValue", "attFormat",
+          "onlyUnknown"}      \* every list holds nothing but unknown entries: it must parse like the empty list, present and empty
 MembersAt == {"none", "top", "rp", "user", "selection", "descriptor", "extensions", "params"}
 Opts == {"none", "all", "lists", "selection"}
 \* order: the members of every list entry (descriptor, parameter) in natural or in reversed order - the entry that
